@@ -57,6 +57,7 @@ type SimKMS struct {
 	Calls                            int
 	Polls                            int
 	FailAt                           int // RPC index that fails with Unavailable (-1: none)
+	FailedRPC, FailedArg             string // the RPC the injected failure hit (name, short resource)
 	// Paging policy: 0 exact pages; 1 short pages (1..page_size items, token while more remain);
 	// 2 exact pages, but a listing that ends exactly on a page boundary gets one more, empty page;
 	// 3 one-element pages; 4 like 1, and additionally some requests are answered with an EMPTY page
@@ -93,6 +94,7 @@ func (s *SimKMS) enter(name, arg string) error {
 		s.Exceeded()
 	}
 	if idx == s.FailAt {
+		s.FailedRPC, s.FailedArg = name, arg
 		s.R.Fault("kms-rpc-error", "rpc#%d %s", idx, name)
 		return status.Errorf(codes.Unavailable, "simkms: injected failure of %s", name)
 	}
